@@ -510,13 +510,17 @@ impl<T: DecodedPacket> DecodedPacket for OptionalMulti<T> {
 
         let mut packets = vec![];
 
+        // Decode on a copy so that nothing is consumed
+        // when the last packets have not fully arrived.
+        let mut remaining = buf.clone();
         for hint in hints {
-            let packet = match T::decode(buf, hint)? {
+            let packet = match T::decode(&mut remaining, hint)? {
                 Some(p) => p,
                 None => return Ok(None),
             };
             packets.push(packet);
         }
+        *buf = remaining;
         Ok(Some(OptionalMulti::Multi(packets)))
     }
 }
